@@ -435,7 +435,19 @@ def rule_checked_reads(F, R, fns):
                     var, _ = find_var(f, d)
                     if var is not None and var.get("c"):
                         tainted |= {y["d"] for y in walk(var["c"][0]) if y["k"] == "ref" and y.get("d") in stream_defined}
-                R.check(not tainted, "R-C15-3", inst + " count", f.loc(n), "element count of the raw read (%s) is not taken from the stream" % pp(a[2]),
+                if tainted:
+                    # a stream-defined count is fine when the destination buffer was just sized with that very count: X.resize(n); read(stream, X.data(), n)
+                    dst = skip(a[1])
+                    while dst is not None and dst["k"] == "cast":
+                        dst = skip(dst["c"][0])
+                    if dst is not None and dst["k"] == "call" and callee(dst).split("::")[-1] == "data" and not args(dst):
+                        owner_txt = pp(obj(dst))
+                        sized = [c for c in f.calls(lambda c: callee(c).split("::")[-1] == "resize" and pp(obj(c)) == owner_txt and len(args(c)) == 1 and pp(args(c)[0]) == pp(a[2]))]
+                        cfg = f.cfg
+                        wn = cfg.where_enclosing(n)
+                        if any((lambda ws: ws is not None and wn is not None and (cfg.dominates(ws, wn) or (ws[0] == wn[0] and ws[1] < wn[1])))(cfg.where_enclosing(c)) for c in sized):
+                            tainted = set()
+                R.check(not tainted, "R-C15-3", inst + " count", f.loc(n), "element count of the raw read (%s) is not taken from the stream (or the buffer was sized with it)" % pp(a[2]),
                         "raw read into %s uses a count read from the stream itself (%s): a corrupted header overruns the buffer" % (pp(a[1]), pp(a[2])))
     R.floor("R-C15-3", nsites, 30, "stream read call sites")
     R.floor("R-C15-3/counts", ncount, 2, "raw pointer reads")
@@ -619,6 +631,54 @@ def rule_hash_coverage(F, R):
                 "only %d of the %d bytes of a %s element reach the content hash (%s): alterations of the remaining payload bytes go undetected" % (covered, S, tsc, how))
 
 
+def rule_overwrite(F, R):
+    """R-C15-7: a reader leaves nothing of the destination's previous contents behind: on every path to a return that is not a failed-read
+    exit, a string / vector destination has been resized (or assigned) from the stream"""
+    from ..cfg import must_dataflow
+    n = 0
+    for f in sorted(F.functions.values(), key=lambda f: f.key):
+        if f.qn != "nano::read" or f.relfile != "include/nano/core/stream.h" or len(f.params) != 2 or f.body is None:
+            continue
+        t = norm_type(f.params[1]["t"])
+        if not (t == "std::string" or t.startswith("std::vector") or t.startswith("std::basic_string")):
+            continue
+        n += 1
+        out = f.params[1]
+        cfg = f.cfg
+
+        def telem(facts, e, out=out):
+            if e.kind != "node":
+                return
+            x = e.node
+            if x["k"] == "call" and x.get("ck") == "mem" and callee(x).split("::")[-1] in ("resize", "assign", "clear") and ref_decl(obj(x)) == out["d"]:
+                facts.add("set")
+            a = assignment(x)
+            if a and ref_decl(a[0]) == out["d"] and a[2] == "=":
+                facts.add("set")
+        IN, before = must_dataflow(cfg, set(), telem)
+        bad = []
+        for r in [x for x in f.nodes() if x["k"] == "return"]:
+            # failure exits: inside `if (!read(...))`
+            fail = False
+            for anc in f.ancestors(r):
+                if anc["k"] == "if":
+                    c, neg = strip_not(anc["c"][anc["r"].index("cond")])
+                    c = skip(c)
+                    if neg and c is not None and c["k"] == "call" and callee(c) in IO_READ and any(y is r for y in walk(anc["c"][anc["r"].index("then")])):
+                        fail = True
+            if fail:
+                continue
+            w = cfg.where_enclosing(r)
+            facts = before(*w) if w else None
+            if facts is None or "set" not in facts:
+                bad.append(f.loc(r))
+        inst = "read(%s)@%s" % (t[:30], f.loc())
+        R.check(not bad, "R-C15-7", inst, f.loc(), "the destination is re-sized from the stream on every successful path",
+                "a successful return (%s) can be reached without re-sizing the destination: an empty serialized value leaves the previous contents in place, "
+                "the object read is not the object written" % ", ".join(bad))
+    R.floor("R-C15-7", n, 2, "string / vector readers")
+
+
 def run(ctx):
     R = ctx.report
     tus = sorted(set(ctx.all_tus()) | {"witness/stream_inst.cpp"}) if ctx.thorough else QUICK_TUS
@@ -631,3 +691,4 @@ def run(ctx):
     rule_tensor_header(F, R)
     rule_version(F, R)
     rule_hash_coverage(F, R)
+    rule_overwrite(F, R)
